@@ -22,12 +22,51 @@ def candidates(text):
     return out
 
 
+def check_dump(sysi, allow, text, outcome):
+    """The clauses of oracle_wf (coq/Semver/Total_span.v), the hypothesis of the totality theorems
+    C04_constraint_total / C04_set_constraint_total / C04_match_total, checked on one answer of
+    Go's version parser.  Returns the list of clauses it breaks (empty = fine)."""
+    bad = []
+    tag = outcome[0]
+    if tag == b"panic":
+        return ["1: System.parse panicked"]
+    d = outcome[1] if len(outcome) > 1 else []
+    if d != []:
+        vsys, unc, isp, vstr, nums, pres, build, ext = d
+        if vsys != sysi:
+            bad.append("2: the version carries system %d, asked for %d" % (vsys, sysi))
+        kind = ext[0]
+        if kind != 0 and kind != {3: 1, 6: 2, 7: 3}.get(sysi, -1):
+            bad.append("2: extension kind %d on a version of system %d" % (kind, sysi))
+        if kind == 1:
+            for el in ext[1:]:
+                st = bytes(el[1])
+                if st == b"" or st[:1] in (b".", b"-"):
+                    bad.append("2: Maven element %r is empty or starts with a separator" % st)
+        if any(bytes(p) == b"" for p in pres):
+            bad.append("2: empty prerelease element")
+    if tag == b"ok":
+        if d == []:
+            bad.append("3: no error but no Version")
+        else:
+            if sysi == 2 and not d[4]:
+                bad.append("3: a Go version without numbers")
+            if sysi == 6 and d[7][0] != 2:
+                bad.append("3: a PyPI version without its extension object")
+    if sysi in (3, 5) and not allow and text == b"0" and d == []:
+        bad.append("4: no Version for the text 0")
+    return bad
+
+
 class Tables:
     """per-system cache of parse outcomes (sx text)"""
 
     def __init__(self, ctx):
         self.ctx = ctx
         self.cache = {}          # (sysi, allow, bytes) -> sx text of the outcome
+        self.checked = 0
+        # clause 4 of oracle_wf is about one fixed text: ask it on every run
+        self.ensure([(3, 0, b"0"), (5, 0, b"0")])
 
     def ensure(self, keys):
         keys = [k for k in set(keys) if k not in self.cache]
@@ -51,6 +90,12 @@ class Tables:
                 res = [[b"panic"]] * len(chunk)
             for k, r in zip(chunk, res):
                 self.cache[k] = sx(r)
+                self.checked += 1
+                for clause in check_dump(k[0], k[1], k[2], r):
+                    self.ctx.violation("the version parser broke clause %s of oracle_wf, the hypothesis of the totality "
+                                       "theorems of the constraint model (C04)" % clause,
+                                       {"system": k[0], "allowInfinity": k[1], "version text": k[2]}, sx(r), "oracle_wf")
+        self.ctx.extra["oracle_wf_answers_checked"] = self.checked
 
     def table_text(self, sysi, keys):
         rows = []
@@ -94,3 +139,40 @@ def run_model(ctx, tables, kind, cases, max_rounds=12):
 
 def impl_args(cases):
     return ["(" + " ".join(c["head"]) + " ())" for c in cases]
+
+
+def run_model_seq(ctx, tables, kind, cases, max_rounds=12):
+    """cases: list of lists of calls {sys, head, keys}; the case argument is the list of
+    (head... table) calls, each with the table of its own system.  A missing key is added to
+    every call of the case."""
+    out = [None] * len(cases)
+    todo = list(range(len(cases)))
+    for rnd in range(max_rounds):
+        allkeys = []
+        for i in todo:
+            for c in cases[i]:
+                allkeys += [(c["sys"], a, s) for (a, s) in c["keys"]]
+        tables.ensure(allkeys)
+        args = []
+        for i in todo:
+            args.append("(" + " ".join("(" + " ".join(c["head"]) + " " + tables.table_text(c["sys"], c["keys"]) + ")" for c in cases[i]) + ")")
+        res = ctx.model(kind, args)
+        nxt = []
+        for i, line in zip(todo, res):
+            if line.startswith('("need" '):
+                need = parse_sx(line)
+                for c in cases[i]:
+                    c["keys"].add((int(need[1]), bytes(need[2])))
+                nxt.append(i)
+            else:
+                out[i] = line
+        todo = nxt
+        if not todo:
+            break
+    for i in todo:
+        out[i] = '("need-unresolved")'
+    return out
+
+
+def impl_args_seq(cases):
+    return ["(" + " ".join("(" + " ".join(c["head"]) + " ())" for c in calls) + ")" for calls in cases]
